@@ -71,11 +71,11 @@ theorem loadFile_boundary (cfg : Nat) (now : Int) (buf0 : Bytes) (pre : List Rec
     intro d buf _
     exact loadLoop_end now _ r' d buf hi' hs'
   rw [specK_congr now _ Kend hK pre _ buf0 hwb hb]
-  exact specK_values now Kend Stop.fileEnd (fun _ _ => rfl) (fun _ _ => rfl) pre _ dc buf0 hw (Rd.open_inv _ _) rfl
+  exact specK_values now Kend Stop.fileEnd (fun _ _ _ => rfl) (fun _ _ _ => rfl) pre _ dc buf0 hw hb (Rd.open_inv _ _) rfl
 
-/-- Cut inside the 12-byte header (1–11 bytes left): start-up error. -/
+/-- Cut inside the 12-byte header (1–11 bytes left): "no records", quietly — like the empty file. -/
 theorem loadFile_header_cut (cfg : Nat) (now : Int) (buf0 f : Bytes) (dat : Option Bytes) (h0 : 0 < f.length) (h12 : f.length < 12) :
-    loadFile cfg now buf0 ⟨f, dat⟩ = ([], Stop.err, buf0) := by
+    loadFile cfg now buf0 ⟨f, dat⟩ = ([], Stop.eof, buf0) := by
   unfold loadFile
   simp [readHeader_short _ f h0 h12]
 
@@ -85,51 +85,25 @@ theorem loadFile_empty (cfg : Nat) (now : Int) (buf0 : Bytes) (dat : Option Byte
   unfold loadFile
   simp [readHeader_empty]
 
-/-- Cut `res` bytes into record `x` (0 < res < 64): the load is the record loop over the complete records `pre`, ending EITHER
-in a start-up error ("Lock Len error": the torn record straddles a bufio refill) OR exactly like a clean end of the file (only
-the reused buffer differs). The torn record is never handed to the engine. -/
-theorem loadFile_torn (cfg : Nat) (now : Int) (buf0 : Bytes) (pre : List Rec) (x : Rec) (res : Nat) (dat : Option Bytes)
-    (hw : ∀ y ∈ pre, WFBuf y.buf) (hx : WFBuf x.buf) (hb : OldOK buf0) (h0 : 0 < res) (h64 : res < 64) :
-    loadFile cfg now buf0 ⟨headerBytes ++ encodeRecs pre ++ x.buf.take res, dat⟩ =
-        specK now (fun _ buf' => ([], Stop.err, buf')) pre (dat.map (Rd.open (bufioCap (fileBufSize cfg * 64)))) buf0 ∨
-    loadFile cfg now buf0 ⟨headerBytes ++ encodeRecs pre ++ x.buf.take res, dat⟩ =
-        specK now (fun _ buf' => ([], Stop.fileEnd, x.buf.take res ++ buf'.drop res)) pre
-          (dat.map (Rd.open (bufioCap (fileBufSize cfg * 64)))) buf0 := by
-  obtain ⟨r', hs', hi', hl⟩ := loadFile_records cfg now buf0 pre (x.buf.take res) dat hw hb
-  rw [hl]
-  obtain ⟨f, hf⟩ : ∃ f, 12 + 63 * pre.length + (x.buf.take res).length + 2 = f + 1 := ⟨_, rfl⟩
-  rw [hf]
-  rcases readLock_torn r' x.buf res hi' hx h0 h64 hs' with hle | hok
-  · left
-    apply specK_congr now _ _ _ pre _ buf0 hw hb
-    intro d buf hbuf
-    simp [loadLoop, hle buf hbuf]
-  · right
-    apply specK_congr now _ _ _ pre _ buf0 hw hb
-    intro d buf hbuf
-    simp [loadLoop, hok buf hbuf]
-
-/-- Torn record with the value file cut anywhere: the delivered records are still exactly the complete records whose values
-are complete; the load either ends cleanly or (only if every value was there) with the start-up error. -/
+/-- Cut `res` bytes into record `x` (0 < res < 64), value file cut anywhere: the torn record ends the file like a clean end —
+the delivered records are exactly the complete records whose values are complete, and the load does not fail. -/
 theorem loadFile_torn_values (cfg : Nat) (now : Int) (buf0 : Bytes) (pre : List Rec) (x : Rec) (res dc : Nat)
     (hw : ∀ y ∈ pre, WFRec y) (hx : WFBuf x.buf) (hb : OldOK buf0) (h0 : 0 < res) (h64 : res < 64) :
     (loadFile cfg now buf0 ⟨headerBytes ++ encodeRecs pre ++ x.buf.take res, some ((encodeData pre).take dc)⟩).1 =
       live now (pre.take (valuePrefix pre dc)) ∧
-    ((loadFile cfg now buf0 ⟨headerBytes ++ encodeRecs pre ++ x.buf.take res, some ((encodeData pre).take dc)⟩).2.1 =
-        (if valuePrefix pre dc = pre.length then Stop.fileEnd else Stop.eof) ∨
-     (loadFile cfg now buf0 ⟨headerBytes ++ encodeRecs pre ++ x.buf.take res, some ((encodeData pre).take dc)⟩).2.1 =
-        (if valuePrefix pre dc = pre.length then Stop.err else Stop.eof)) := by
+    (loadFile cfg now buf0 ⟨headerBytes ++ encodeRecs pre ++ x.buf.take res, some ((encodeData pre).take dc)⟩).2.1 =
+        (if valuePrefix pre dc = pre.length then Stop.fileEnd else Stop.eof) := by
   have hwb : ∀ y ∈ pre, WFBuf y.buf := fun y hy => (hw y hy).1
-  rcases loadFile_torn cfg now buf0 pre x res (some ((encodeData pre).take dc)) hwb hx hb h0 h64 with h | h
-  · rw [h]
-    obtain ⟨h1, h2⟩ := specK_values now (fun _ buf' => ([], Stop.err, buf')) Stop.err (fun _ _ => rfl) (fun _ _ => rfl)
-      pre (Rd.open (bufioCap (fileBufSize cfg * 64)) ((encodeData pre).take dc)) dc buf0 hw (Rd.open_inv _ _) rfl
-    exact ⟨h1, Or.inr h2⟩
-  · rw [h]
-    obtain ⟨h1, h2⟩ := specK_values now (fun _ buf' => ([], Stop.fileEnd, x.buf.take res ++ buf'.drop res)) Stop.fileEnd
-      (fun _ _ => rfl) (fun _ _ => rfl)
-      pre (Rd.open (bufioCap (fileBufSize cfg * 64)) ((encodeData pre).take dc)) dc buf0 hw (Rd.open_inv _ _) rfl
-    exact ⟨h1, Or.inl h2⟩
+  obtain ⟨r', hs', hi', hl⟩ := loadFile_records cfg now buf0 pre (x.buf.take res) (some ((encodeData pre).take dc)) hwb hb
+  rw [hl]
+  obtain ⟨f, hf⟩ : ∃ f, 12 + 63 * pre.length + (x.buf.take res).length + 2 = f + 1 := ⟨_, rfl⟩
+  rw [hf]
+  have hK : ∀ (d : Option Rd) (b : Bytes), OldOK b → (loadLoop now (f + 1) r' d b).1 = [] ∧ (loadLoop now (f + 1) r' d b).2.1 = Stop.fileEnd := by
+    intro d b hbo
+    obtain ⟨b', hb'⟩ := readLock_torn r' x.buf res hi' hx h0 h64 hs' b hbo
+    simp [loadLoop, hb']
+  exact specK_values now _ Stop.fileEnd (fun d b hbo => (hK d b hbo).1) (fun d b hbo => (hK d b hbo).2) pre
+    (Rd.open (bufioCap (fileBufSize cfg * 64)) ((encodeData pre).take dc)) dc buf0 hw hb (Rd.open_inv _ _) rfl
 
 /-- `load` (one file, fresh buffer) in terms of `loadFile`. -/
 theorem load_eq (cfg : Nat) (now : Int) (f d : Bytes) :
